@@ -37,6 +37,13 @@ func propGen(prop, tier string, idx int) GenOpts {
 		o.NoMultiAs = false
 		conc(1, 3)
 		o.WOp = [8]int{0, 10, 4, 4, 1, 0, 0, 0}
+		if idx%4 == 3 {
+			// constructors returning nil for all or one of their outputs, failing Close methods:
+			// neither excuses a singleton constructor from running exactly once
+			o.FaultBudget = [4]int{1, 4, 3, 1}
+			o.WFault = [4]int{0, 0, 4, 1}
+			o.PMulti, o.PResult = 350, 300
+		}
 	case "C02":
 		o.WLife = [3]int{2, 7, 1}
 		o.PMulti, o.PResult, o.PVoid = 150, 150, 120
@@ -48,6 +55,12 @@ func propGen(prop, tier string, idx int) GenOpts {
 		o.MaxOps = 6
 		o.PFocus = 500
 		o.PReuseType, o.PName, o.PGroup = 300, 250, 250
+		if idx%4 == 1 {
+			// one registration visible under several interface aliases / group memberships
+			o.PAs, o.PAs2, o.PGroup, o.PName = 450, 600, 450, 150
+			o.WOp = [8]int{0, 8, 9, 3, 0, 0, 0, 0}
+			o.PFocus = 150
+		}
 		// "a failed construction yields no instance and may be retried"
 		if idx%4 == 3 {
 			o.FaultBudget = [4]int{2, 5, 3, 0}
@@ -56,6 +69,7 @@ func propGen(prop, tier string, idx int) GenOpts {
 	case "C03":
 		o.WLife = [3]int{3, 3, 6}
 		o.PMulti, o.PResult = 150, 150
+		o.PParamObj, o.POptionalReg = 550, 350
 		conc(1, 2)
 		if seq {
 			conc(1, 1)
@@ -66,6 +80,7 @@ func propGen(prop, tier string, idx int) GenOpts {
 		o.PIgnored, o.POptionalMissing, o.PGroupDep = 120, 200, 500
 		o.PProbeUnregistered = 250
 		o.PAs, o.PAs2 = 400, 500
+		o.PEmbedType = 250
 		o.NoMultiOpts, o.NoResultGroup = false, false
 		o.PResultGroup = 300
 		conc(1, 1)
@@ -117,6 +132,13 @@ func propGen(prop, tier string, idx int) GenOpts {
 		conc(1, 1)
 		o.WOp = [8]int{0, 10, 3, 6, 3, 0, 0, 0}
 		o.MaxOps = 12
+		if idx%4 == 2 {
+			// operations (scope creation with initializers, resolutions) overlapping provider / scope Close
+			conc(2, 3)
+			o.PVoid = 300
+			o.PCloseStorm = 300
+			o.WLife = [3]int{3, 5, 2}
+		}
 		if idx%2 == 1 {
 			// the order must hold whatever Close methods fail
 			o.FaultBudget = [4]int{3, 4, 3, 1}
@@ -163,6 +185,16 @@ func propGen(prop, tier string, idx int) GenOpts {
 		o.WOp = [8]int{0, 10, 4, 4, 1, 0, 0, 0}
 		o.PVoid = 150
 		o.NoOptionalFail = false
+		if idx%4 == 3 {
+			// constructions overlapping a Close whose late instance fails to close: the error keeps its class
+			conc(2, 3)
+			o.PDisposable = 850
+			o.FaultBudget = [4]int{1, 4, 4, 2}
+			o.WFault = [4]int{2, 2, 1, 6}
+			o.WOp = [8]int{0, 10, 2, 4, 5, 1, 0, 0}
+			o.WLife = [3]int{2, 6, 3}
+			o.PFocus = 400
+		}
 	case "C18":
 		o.PBuiltinDep = 500
 		o.PParamObj = 500
